@@ -105,6 +105,28 @@ The patch must look like a reasonable fix for the ticket (a reviewer skimming it
 and break the property for inputs the ticket was NOT about. It must NOT repeat a site or mechanism listed above.
 Make sure the demo shows the violation through one of the public observables listed under "observe_at", on an input that has
 nothing to do with the ticket's special case.""",
+    9: """Earlier rounds already covered a wide range of mechanisms (wrong variables, caches, aliasing, dtype, iteration and
+vectorisation slips, angle / quaternion conventions, entry points disagreeing, error handling, over-correcting fixes,
+de-duplication keyed on uuid or pose, prefix-compatible frame names).
+This time choose the INPUT CLASS first and the mechanism second. Pick a class of valid inputs that a careful tester might
+still not generate, and introduce a plausible slip (any mechanism not listed as already used) that manifests ONLY for that
+class. Candidate classes — choose one that fits this property, or a comparable one:
+ - configuration extremes: `target_labels` None / empty (= all labels), a single target label, `merge_similar_labels=True`,
+   every optional parameter omitted, per-label lists given as scalars, thresholds of exactly 1.0 for IoU or very large
+   distances, `max_matchable_radii` smaller than every distance, several threshold rows per matching mode;
+ - object extremes: an object centred exactly on the ego (distance 0), yaw exactly 0 / +-pi / +-pi/2, a quaternion with
+   negative w, very small (5 cm) or very large (30 m) boxes, heights of 0.1 m, confidence exactly 0.0 or 1.0, identical
+   objects twice in a list, z far from 0, velocities None vs given, `pointcloud_num` 0 vs None, uuids containing unusual
+   characters;
+ - population extremes: empty estimate list with non-empty ground truth and vice versa, exactly one object, hundreds of
+   objects, all estimates `unknown`-labelled, all ground truths `false_positive`, every estimate unmatched, more labels in
+   the data than in the targets, frames of a sequence that are empty in the middle;
+ - numeric extremes: coordinates around 1e5 m, timestamps near 0 or near 2^53, ROIs at pixel 0 or of size 1, exactly
+   tied scores, values exactly on a threshold (then make the slip larger than a boundary flip: the two behaviours must
+   differ by far more than rounding).
+Say in `needs` exactly which class the bug needs. The change must keep the existing tests green and look like an ordinary
+edit (refactoring, clean-up, micro-optimisation, defensive check). It must NOT repeat a site or mechanism listed above.
+Make sure the demo shows the violation through one of the public observables listed under "observe_at".""",
 }
 
 TEMPLATE = """You are helping to measure how sensitive a verification effort is. You will SEED A BUG.
